@@ -209,7 +209,10 @@ SeedHists ==
        Mk("mkdir", AbsP(<<"w", "a", "b">>))>>,
      <<Mk("mkdir", AbsP(<<"w", "a">>)), Mk("mkdir", AbsP(<<"w", "a", "b">>)), Mk("mkdir", AbsP(<<"w", "b">>)),
        Mk("writefile", AbsP(<<"w", "b", "a">>)), [Mk("link", AbsP(<<"w", "b", "a">>)) EXCEPT !.q = AbsP(<<"w", "a", "a">>)]>>,
-     <<Mk("writefile", AbsP(<<"w", "a">>)), [Mk("link", AbsP(<<"w", "a">>)) EXCEPT !.q = AbsP(<<"w", "b">>)]>>}
+     <<Mk("writefile", AbsP(<<"w", "a">>)), [Mk("link", AbsP(<<"w", "a">>)) EXCEPT !.q = AbsP(<<"w", "b">>)]>>,
+     \* a directory with content reachable through a symbolic link as well (moving it below itself through the link)
+     <<Mk("mkdir", AbsP(<<"w", "a">>)), Mk("writefile", AbsP(<<"w", "a", "a">>)),
+       [Mk("symlink", AbsP(<<"w", "b">>)) EXCEPT !.q = RelP(<<"a">>)]>>}
 
 (***************************************************************************)
 (* Profile "symchain": chains l1 -> l2 -> ... -> ln -> file, around the    *)
@@ -285,7 +288,8 @@ Perm1Calls ==
     \cup {[C0 EXCEPT !.op = "openclose", !.p = PF, !.flag = f] : f \in PermOpenFlags}
     \cup {[C0 EXCEPT !.op = "openclose", !.p = PD, !.flag = <<"RDONLY">>]}
     \cup {[C0 EXCEPT !.op = "openclose", !.p = PNewD, !.flag = f, !.perm = 438] : f \in {<<"WRONLY", "CREATE">>, <<"RDWR", "CREATE", "EXCL">>, <<"RDONLY", "CREATE">>}}
-    \cup {[C0 EXCEPT !.op = "truncate", !.p = PF, !.n = 0], [C0 EXCEPT !.op = "chtimes", !.p = PF, !.n = 5], [C0 EXCEPT !.op = "chtimes", !.p = PD, !.n = 5]}
+    \cup {[C0 EXCEPT !.op = "truncate", !.p = PF, !.n = n] : n \in {0, 1, 2}}      \* shorter, the current size, longer
+    \cup {[C0 EXCEPT !.op = "chtimes", !.p = PF, !.n = 5], [C0 EXCEPT !.op = "chtimes", !.p = PD, !.n = 5]}
     \cup {[C0 EXCEPT !.op = "chmod", !.p = p, !.perm = m] : p \in {PF, PD}, m \in {384, 3071}}
     \cup {[C0 EXCEPT !.op = o, !.p = PF, !.uid = u, !.gid = g] : o \in {"chown", "lchown"}, u \in {-1, 1001, 1002}, g \in {-1, 1001, 1002}}
     \cup {[C0 EXCEPT !.op = "chown", !.p = PD, !.uid = -1, !.gid = 1001]}
